@@ -3,6 +3,7 @@ import PdshVerif.Pcp.Commute
 import PdshVerif.Pcp.Spec
 import PdshVerif.Pcp.Multi
 import PdshVerif.Pcp.SessionLemmas
+import PdshVerif.Pcp.PacedTree
 
 /-! # C11  pdcp/rpdcp reproduce the source tree exactly on every target
 
@@ -608,6 +609,47 @@ theorem session_without_error_is_run (so : SOpts) (co : COpts) (o : Opts) (fs : 
     sessionEnd so co o fs srcs = run o fs (send so srcs) := by
   unfold sessionEnd run
   rw [session_sync, session_clean so co o fs srcs hf]
+
+/-- **Round trip of the interactive protocol.**  Under the hypotheses of `copy_roundtrip` the DIALOGUE
+between the client (either form) and the receiver -- the client sends one record, reads one reply, goes
+on only if it is positive -- draws no negative reply (every record and the data of every file are answered
+by exactly one acknowledgement, `paced_tree`), the client has therefore sent exactly `send so srcs`, and
+the dialogue ends in the copied tree, with acknowledgements only. -/
+theorem session_roundtrip (o : Opts) (hc : CntOk o) (hnf : o.fsize = none) (so : SOpts) (co : COpts)
+    (hp : so.preserve = o.preserve) (fs : FS)
+    (D : Path) (srcs : List (Str × Tree)) (budget : Nat)
+    (hres : resolve fs o.cwd o.dest = some D) (hdir : fs.isDir D = true)
+    (hsrc : SrcsOk so srcs) (hb : o.dest.length + budget < PCP_PATH_MAX)
+    (hgood : GoodKids budget (namedSrcs so srcs))
+    (hfresh : ∀ n k, (n, k) ∈ namedSrcs so srcs → FreshBelow fs (D ++ [n])) :
+    (session so co o fs (expandAll srcs)).failed = false ∧
+    (session so co o fs (expandAll srcs)).sent = send so srcs ∧
+    (sessionEnd so co o fs srcs).fs = recvKids o so.subsec fs D (namedSrcs so srcs) ∧
+    ∀ r ∈ (sessionEnd so co o fs srcs).out, r = Reply.ack := by
+  have hv : VerifyOk o fs := fun _ => ⟨D, hres, hdir⟩
+  have h0 : enter o (St.init fs) o.dest =
+      { St.init fs with out := [.ack],
+                        stack := [{ targ := o.dest, targisdir := true, setimes := false, mt := default, atm := default }],
+                        phase := .start } := by
+    rw [enter_ok (p := D) hv hres hdir]
+    rfl
+  have hat : AtDir o (enter o (St.init fs) o.dest)
+      { targ := o.dest, targisdir := true, setimes := false, mt := default, atm := default } [] D := by
+    rw [h0]
+    exact ⟨rfl, rfl, rfl, hres, hdir, hv, ⟨usecOk_zero _, usecOk_zero _⟩⟩
+  have hfresh' : ∀ n k, (n, k) ∈ namedSrcs so srcs → FreshBelow (enter o (St.init fs) o.dest).fs (D ++ [n]) := by
+    rw [h0]; exact hfresh
+  have hpaced := paced_kids hc hnf so.subsec (namedSrcs so srcs) budget _ _ [] D hat (fun e => by cases e) hb hgood
+    hfresh'
+  rw [← hp, ← chunks_eq so srcs hsrc] at hpaced
+  have hf := session_paced so co o fs (expandAll srcs) (by rw [h0]) hpaced
+  have hrun := session_without_error_is_run so co o fs srcs hf
+  obtain ⟨c1, c2⟩ := copy_roundtrip o hc hnf so hp fs D srcs budget hres hdir hsrc hb hgood hfresh
+  refine ⟨hf, session_clean so co o fs srcs hf, ?_, ?_⟩
+  · rw [hrun]; exact c1
+  · rw [hrun]
+    intro r hr
+    exact c2 r (by simp only [sink]; exact List.mem_reverse.2 hr)
 
 /-- `/w/d` holds a regular FILE `t`: the directory `t` cannot be created -/
 def sfs : FS := fun p =>
